@@ -1,4 +1,5 @@
 // One translation unit per (H_ORDER, H_DIM): SplineOptimizer over {QuadInv, Identity, Affine} x {Identity, Paraboloid}.
+#include <cstring>
 #include "common.hpp"
 #include "SplineOptimizer.hpp"
 #include "maps.hpp"
@@ -148,6 +149,16 @@ namespace
             o.integer(cnt);
             o.nl();
             o.key("direct"); o.integer(cv ? 1 : 0); o.integer(m2.empty() ? 0 : 1); o.nl();
+            // read-only queries must not change what the object reports: the stored message, flag and verdict are read
+            // again after checkValidity(&out) and after checkValidity() and must be what they were
+            std::string msg2 = opt->getLastError();
+            bool cv2 = opt->checkValidity();
+            std::string msg3 = opt->getLastError();
+            o.key("after");
+            o.integer(msg2 == msg ? 1 : 0);
+            o.integer(msg3 == msg ? 1 : 0);
+            o.integer((cv2 == cv && opt->isValid() == iv && static_cast<bool>(*opt) == bv) ? 1 : 0);
+            o.nl();
         }
         void flags(int b) override
         {
@@ -213,9 +224,30 @@ namespace
             std::vector<std::vector<HV::Sample>> samples;
             // number of segments is not exposed directly; size the record generously from x
             samples.resize(nx + 1);
+            // the caller's gradient vector: empty, already of the right size and full of other numbers, or of a wrong size
+            // (chosen from the request so that a run is reproducible)
             Eigen::VectorXd g;
+            {
+                unsigned long hsh = (unsigned long)nx * 2654435761UL;
+                for (long i = 0; i < nx; ++i) { unsigned long b; double xv = x(i); std::memcpy(&b, &xv, sizeof b); hsh = hsh * 31UL + b; }
+                switch (hsh % 3UL)
+                {
+                case 1: g = Eigen::VectorXd::Constant(nx, 12345.678); break;
+                case 2: g = Eigen::VectorXd::Constant(nx + 3, -777.25); break;
+                default: break;
+                }
+            }
             WS *ws = wsOf(wsk);
-            double c = callEval(x, g, cs, rec == 1 ? &samples : nullptr, ws, ex);
+            double c = 0.0;
+            try
+            {
+                c = callEval(x, g, cs, rec == 1 ? &samples : nullptr, ws, ex);
+            }
+            catch (const std::runtime_error &)
+            {
+                o.key("threw"); o.integer(1); o.nl();   // an evaluation aborted by the user's functor: nothing to report
+                return;
+            }
             o.key("cost"); o.num(c); o.nl();
             o.vec("grad", g, g.size());
             const Spline *sp = ws ? &ws->spline : opt->getOptimalSpline();
@@ -289,10 +321,15 @@ namespace
             std::vector<Eigen::VectorXd> grads(nth);
             std::vector<std::unique_ptr<WS>> wss;
             for (long t = 0; t < nth; ++t) wss.emplace_back(new WS());
-            const Opt &copt = *opt;
+            const Opt &shared_opt = *opt;
+            // even threads share the one configured optimizer (each with its own workspace); odd threads work on private copies of
+            // it: nothing may be shared between different optimizer objects either (function-local statics, class statics)
+            std::vector<std::unique_ptr<Opt>> copies(nth);
+            for (long t = 1; t < nth; t += 2) copies[t].reset(new Opt(shared_opt));
             std::vector<std::thread> th;
             for (long t = 0; t < nth; ++t)
                 th.emplace_back([&, t]() {
+                    const Opt &copt = copies[t] ? *copies[t] : shared_opt;
                     HV::TimeCost tc{&cs};
                     HV::RunCost<D> rc{&cs, nullptr};
                     HV::WpCost wc{&cs};
